@@ -1,7 +1,7 @@
 ---------------------------- MODULE Gait_ind ----------------------------
 (* Unbounded check of the gait-phase invariants of Gait.tla with Apalache:  *)
 (* IndInv is inductive for EVERY even cycle length K >= 2 and every         *)
-(* increment m in 0..K-1 (TLC checks K in {8,12,16,20} exhaustively).       *)
+(* increment m >= 0 (TLC checks K in {8,12,16,20}, m in 0..3K exhaustively). *)
 (*   apalache-mc check --init=IndInit --inv=IndInv --length=1 Gait_ind.tla  *)
 (*   apalache-mc check --init=Init0   --inv=IndInv --length=0 Gait_ind.tla  *)
 (* The module restates Advance / Step of Gait.tla with type annotations     *)
@@ -23,7 +23,7 @@ VARIABLES
 Half == K \div 2
 Advance(p) == ((p + m + Half) % K) - Half
 
-Params == K >= 2 /\ K % 2 = 0 /\ m >= 0 /\ m < K
+Params == K >= 2 /\ K % 2 = 0 /\ m >= 0
 InRange == left >= -Half /\ left <= Half /\ right >= -Half /\ right <= Half
 HalfCycleApart == (right - left) % K = Half
 IndInv == Params /\ InRange /\ HalfCycleApart /\ steps >= 0
@@ -35,5 +35,5 @@ Init0 == K \in Int /\ m \in Int /\ Params /\ left = 0 /\ right = K \div 2 /\ ste
 
 Next == left' = Advance(left) /\ right' = Advance(right) /\ steps' = steps + 1 /\ UNCHANGED <<K, m>>
 \* Gait!AdvancesByIncrement as an action invariant (checked with --inv=AdvancesByIncrement --length=1 from IndInit)
-AdvancesByIncrement == (left' - left) % K = m /\ (right' - right) % K = m
+AdvancesByIncrement == (left' - left) % K = m % K /\ (right' - right) % K = m % K
 =============================================================================
